@@ -12,7 +12,7 @@ This module holds what harness/sfv/props/c17.py needs for it:
     max_persist None, 1, 2, 3, ...; boundary shapes (empty Bus, one label, capacity = length, out-of-range keys,
     empty selections).  Lean-independent oracle on the same cases: a textbook OrderedDict LRU predicts loaded set and
     recency order of failure-free histories; at most max_persist frames loaded; a label is flagged loaded iff its cell
-    holds a Frame (violated after a read that fails part-way through an access: finding F96),
+    holds a Frame - strictly, also after a read that fails part-way through an access (finding F96, repaired in /repo 1f9773b),
   * case kind 'bsem': the primitives of lean/SFModel/BusSem.lean against the real dict / OrderedDict / NumPy operations.
 """
 from __future__ import annotations
@@ -38,11 +38,12 @@ THEOREMS = [
     'SF.BridgeBus.genValues_eq', 'SF.BridgeBus.genStep_eq', 'SF.BridgeBus.genRunAll_eq',
     # the C17 theorems for the machine over the translated cache update (lean/SFModel/Props/C17Gen.lean)
     'SF.C17Gen.translated_bus_inv', 'SF.C17Gen.translated_bus_lru', 'SF.C17Gen.translated_update_inv_partial',
-    'SF.C17Gen.translated_partial_read_counterexample',
+    'SF.C17Gen.pinned_partial_read_counterexample',
 ]
-PARTIAL = ['SF.C17Gen.translated_update_inv_partial: "flags agree with cells whether the cache update returns or raises" is proved for stores '
-           'whose reads within one access all succeed or all fail (a stale file); with a store failing per label the translated code violates it '
-           '(SF.C17Gen.translated_partial_read_counterexample, finding F96)']
+PARTIAL = ['SF.C17Gen.translated_update_inv_partial: the whole invariant (flags = cells, loaded count <= max_persist, recency-list keys = loaded labels) '
+           'through the translated cache update, returning or raising, is proved for stores whose reads within one access all succeed or all fail (a stale '
+           'file: the store of the model); for a store failing per label the repaired try / finally (1f9773b) is translated and bridged, its effect is shown '
+           'on the proved example pinned_partial_read_counterexample (second conjunct) and checked by the strict grid oracle, not proved for all states']
 TRUSTED = ['tools/py2lean_bus.py (translator of Bus._update_series_cache_iloc) and its reading of dict / NumPy / generator operations '
            '(lean/SFModel/BusSem.lean); typing assumptions: a key is an integer or addresses each of its positions once (a repeated position '
            'makes Series.iloc / Index.iloc raise before any mutation); cross-checked against the real Bus and the real dict / array operations '
@@ -50,7 +51,6 @@ TRUSTED = ['tools/py2lean_bus.py (translator of Bus._update_series_cache_iloc) a
 CORR_ONLY = ['Bus._store_reader (batching of read_many calls) and the store itself are abstract parameters of the translation (a frame or an '
              'exception per label); key -> positions (NumPy indexing, Index._loc_to_iloc for label keys) is done by the harness']
 
-F96 = 'F96-bus-partial-read-flags-without-frames'
 LABELS = 'abcdefgh'
 OOR = 7          # offset used for "a position outside the axis"
 _STATE = {}
@@ -400,18 +400,12 @@ def evaluate(ctx, c, outs):
         if la != int(all(loaded)):
             fails.append(Failure('oracle', f'{where}: _loaded_all={la} flags={loaded}', c))
         if loaded != cells:
-            ctx.count('bgrid_flags_without_frames_F96')
-            fails.append(Failure('oracle', f'{where}: labels flagged loaded {loaded} but the cells holding a Frame are {cells}', c,
-                                 detail={'tag': 'partial_read' if partial else None}))
+            ctx.count('bgrid_flags_without_frames')
+            fails.append(Failure('oracle', f'{where}: labels flagged loaded {loaded} but the cells holding a Frame are {cells}', c))
             break
         if len(fails) > 4:
             break
     return fails
-
-
-def classify(f):
-    d = f.detail if isinstance(f.detail, dict) else {}
-    return F96 if d.get('tag') == 'partial_read' else None
 
 
 # ------------------------------------------------------------------ bsem: the primitives
